@@ -63,6 +63,15 @@ CHECKS['C14'] = dict(engine='hypothesis/grdrv + fz_lz4 (libFuzzer)', technique='
          'their plain twins, and bad compression headers must be rejected without leaks. Exploration level.',
     note='Trusted: py/lz4ref.py and harness/lz4ref.h (reference, from the LZ4 block format description).', ref='5/C14')
 
+CHECKS['C07'] = dict(engine='hypothesis/grdrv x2 builds', technique='model-based property-based testing (generated straight-line programs vs a 32-bit reference evaluator) + differential testing of the two interpreter builds',
+    text='Programs generated with stack-depth tracking are loaded by the real bytecode loader (as constraint and as action code) and run by both the direct-threaded and the '
+         'call-threaded interpreter; results and machine status are compared with an evaluator written from doc/OpCodes.adoc; whole fonts are shaped by both builds and dumps compared. Exploration level.',
+    note='Trusted: the reference evaluator in py/props/c07.py. Slot-touching opcodes are compared between builds only.', ref='5/C07')
+CHECKS['C18'] = dict(engine='hypothesis/grdrv (history command)', technique='model-based stateful property-based testing: generated Feat/Sill/name tables and set/get/clone/for_lang/label histories against a dictionary model',
+    text='Generated feature tables (bit widths straddling word boundaries, hidden features, v1/v2), language overrides and name tables; operation histories over several live '
+         'feature-value objects judged by a dictionary model; labels compared with the name-table strings across encodings. Exploration level.',
+    note='Trusted: the model in py/props/c18.py; fontsynth table writers. Feature id 1 and > 256 features are outside the generator.', ref='5/C18')
+
 NOT_YET = {}
 
 def main():
